@@ -5,12 +5,12 @@ L9 — solver bridge, parsing side (cnfgen/utils/solver.py).
                      `_satsolve_stdin_stdout` and `_satsolve_filein_stdout`
 `parseMinisatFile` : what `_satsolve_filein_fileout` does with the result file
 
-Texts are lists of characters (`Str`), already decoded: the code decodes with
-`.decode('ascii')`, so only ASCII text reaches the parser (non-ASCII bytes raise
-`UnicodeDecodeError` before; see notes/C20.md).  The model follows the code, defects
-included: a non-integer token on a `v` line raises `ValueError` (finding D28c).
-(The code as of /repo a57824c: `verdict = line.split()[1:2]`, `witness if result else None`,
-i.e. after the fixes of D24 and D28.)
+Texts are lists of characters (`Str`).  The code decodes the solver's bytes with
+`.decode('ascii', errors='replace')` (`decodeAscii`: every byte ≥ 0x80 becomes U+FFFD, which is
+neither blank, digit, `s` nor `v`).  The model follows the code as of /repo 1de50c9: a status line
+without second word gives no verdict, a non-integer word on a `v` line (or in the minisat file) is
+caught (`except ValueError`) and re-raised as the documented `RuntimeError`, the witness is
+`witness if result else None`.
 
 No Mathlib import: compiled into the native driver.
 -/
@@ -54,10 +54,10 @@ def splitLinesAux : List Char → Str → Bool → List Str
 
 def splitLines (s : Str) : List Str := splitLinesAux s [] false
 
-/-- `output.decode('ascii')` / `open(…, encoding='ascii').read()`: `none` = UnicodeDecodeError
-(a subclass of ValueError that is not among the kinds of `Err`; the driver prints its name) -/
-def decodeAscii (bytes : List Nat) : Option Str :=
-  if bytes.all (· < 128) then some (bytes.map Char.ofNat) else none
+/-- `output.decode('ascii', errors='replace')` / `open(…, encoding='ascii', errors='replace').read()`:
+every byte outside ASCII becomes U+FFFD -/
+def decodeAscii (bytes : List Nat) : Str :=
+  bytes.map (fun b => if b < 128 then Char.ofNat b else Char.ofNat 0xFFFD)
 
 def digitVal (c : Char) : Option Nat :=
   if 48 ≤ c.toNat && c.toNat ≤ 57 then some (c.toNat - 48) else none
@@ -99,6 +99,11 @@ def mapE {α β} (f : α → Except Err β) : List α → Except Err (List β)
     | .ok y => match mapE f xs with
       | .error e => .error e
       | .ok ys => .ok (y :: ys)
+
+/-- `try: … except ValueError: raise RuntimeError(…)` -/
+def catchValueError {α} : Except Err α → Except Err α
+  | .error .valueError => .error .runtimeError
+  | x => x
 
 /-! ### `sorted(witness, key=abs)` — stable -/
 
@@ -144,7 +149,7 @@ def stepLine (st : PState) (line : Str) : Except Err PState :=
     let st1 : PState :=
       if c = 's' then { st with result := verdictOfWords (pySplit line) } else st
     if c = 'v' then
-      match vInts line with
+      match catchValueError (vInts line) with
       | .error e => .error e
       | .ok ws => .ok { st1 with witness := st1.witness ++ ws }
     else .ok st1
@@ -181,7 +186,7 @@ def parseMinisatTokens (foutput : List Str) : Except Err (Bool × Option (List I
   | [] => .error .runtimeError
   | t :: rest =>
     if t = tokSat then
-      match mapE pyIntE (rest.filter (fun v => v != tok0)) with
+      match catchValueError (mapE pyIntE (rest.filter (fun v => v != tok0))) with
       | .error e => .error e
       | .ok ws => .ok (true, witnessIf true (sortByVar ws))
     else if t = tokUnsat then .ok (false, none)
